@@ -62,6 +62,25 @@ def specFor (prop : String) (cx : Spec.Ctx) (guard : Bool) (tr : List Event) : O
     if msg == "flush-count-differs-from-longest-chain" && (cx.hasNonAsync || guard) then none else some (i, msg)
   | none => none
 
+/-- did the MAX_TASK_STACK_SIZE guard reset the scheduler in this run, and where?  Read off the IMPLEMENTATION's observations:
+    the index of the first event that carries the outcome `(err (stackguard))`.  The markers put into the verdict's detail
+    (`[guard-reset]`: the guard fired; `[spec-after-reset]`: the event the observer rejects is that event or a later one) are what
+    the harness turns into the signature suffix `/after-MAX_TASK_STACK_SIZE-reset` (corecommon.signature_for). -/
+def isGuardEvent : Event → Bool
+  | .ret (.err .stackguard) | .syncX _ _ (.err .stackguard) | .done _ (.err .stackguard)
+  | .run _ _ _ (.out (.err .stackguard)) => true
+  | _ => false
+
+def guardIndex (tr : List Event) : Option Nat :=
+  let n := (tr.takeWhile fun e => !isGuardEvent e).length
+  if n < tr.length then some n else none
+
+def guardMark (tr : List Event) (failAt : Option Nat) : String :=
+  match guardIndex tr, failAt with
+  | some g, some i => if i ≥ g then " [guard-reset] [spec-after-reset]" else " [guard-reset]"
+  | some _, none => " [guard-reset]"
+  | none, _ => ""
+
 def handle (id : Nat) (hdr : List Sexp) (body : List Sexp) : String :=
   match hdr with
   | [.atom prop, c, t] =>
@@ -76,13 +95,14 @@ def handle (id : Nat) (hdr : List Sexp) (body : List Sexp) : String :=
       let cx := Spec.mkCtx cfg tops
       let c := match corr with | none => (if stuck.isEmpty then "ok" else "diff") | some _ => "diff"
       let d := match corr with | none => stuck | some (i, msg) => s!"projected event {i}: {msg}{stuck}"
-      let sp := match specFor prop cx s.guardFired impl with
+      let spf := specFor prop cx s.guardFired impl
+      let sp := match spf with
         | none => ("ok", "")
         | some (i, msg) => (s!"fail:{msg}", s!" spec: event {i} {(impl[i]?.map eventStr).getD ""}")
       let spm := match specFor prop cx s.guardFired model with
         | none => "ok"
         | some (_, msg) => s!"fail:{msg}"
-      s!"R {id} CORR={c} SPEC={sp.1} SPECM={spm} | {d}{sp.2}"
+      s!"R {id} CORR={c} SPEC={sp.1} SPECM={spm} | {d}{sp.2}{guardMark impl (spf.map (·.1))}"
     | _, _ => s!"R {id} CORR=diff SPEC=ok SPECM=ok | unparsable cfg/tops"
   | _ => s!"R {id} CORR=diff SPEC=ok SPECM=ok | unparsable header"
 
@@ -117,13 +137,20 @@ def handle20 (id : Nat) (hdr : List Sexp) (body : List Sexp) : String :=
       let corr := firstDiff (m1.map norm) (impl1.map norm)
       let cstr := match corr with | none => (if stuck.isEmpty then "ok" else "diff") | some _ => "diff"
       let d := match corr with | none => stuck | some (i, msg) => s!"event {i}: {msg}{stuck}"
-      let sp := match firstDiff (impl0.map norm) (impl1.map norm) with
+      let spf := firstDiff (impl0.map norm) (impl1.map norm)
+      -- (a difference at or after the first guard event of EITHER run counts as "after the reset")
+      let failAt : Option Nat := spf.map fun (x : Nat × String) => x.1
+      let gmark := match guardIndex impl0, guardIndex impl1 with
+        | some g0, some g1 => guardMark (if g0 ≤ g1 then impl0 else impl1) failAt
+        | some _, none => guardMark impl0 failAt
+        | none, _ => guardMark impl1 failAt
+      let sp := match spf with
         | none => ("ok", "")
         | some (i, msg) => ("fail:behaviour-changes-under-debug-options", s!" spec: event {i}: default(model=)/options(impl=): {msg}")
       let spm := match firstDiff (m0.map norm) (m1.map norm) with
         | none => "ok"
         | some _ => "fail:behaviour-changes-under-debug-options"
-      s!"R {id} CORR={cstr} SPEC={sp.1} SPECM={spm} | {d}{sp.2}"
+      s!"R {id} CORR={cstr} SPEC={sp.1} SPECM={spm} | {d}{sp.2}{gmark}"
     | _, _ => s!"R {id} CORR=diff SPEC=ok SPECM=ok | unparsable cfg/tops"
   | _ => s!"R {id} CORR=diff SPEC=ok SPECM=ok | unparsable header"
 
